@@ -46,7 +46,7 @@ def poly_smt(p: Poly):
     if not p.t:
         return "0.0"
     terms = []
-    for m, c in p.t.items():
+    for m, c in sorted(p.t.items()):  # canonical term order: equal polynomials must print identically
         if not m:
             terms.append(_rat(c))
         elif c == 1 and len(m) == 1:
@@ -310,6 +310,17 @@ def solve(ob: Obligation, timeout_s=60.0, conditioned=True, confirm=None, canary
     t_total = 0.0
     script, atoms, bvars = ob.script(with_axioms=False)
     has_defined = any(CTX.atoms[i][0] in ABSTRACT_KINDS or (CTX.atoms[i][0] == "var" and CTX.atoms[i][1] in S.CONST_VALUES) for i in atoms)
+    if canary:
+        # cheapest refutation first: the query pinned to a generic point of the input space (exact when there are no defined
+        # atoms, abstract otherwise - see below why the abstract query is the right one for a canary)
+        pins = _pinned(atoms, seed=len(atoms))
+        extra = "\n".join(f"(assert (= {_aname(i)} {_rat(v)}))" for i, v in pins)
+        r0, s0, dt0 = _z3_check(script + "\n" + extra, min(timeout_s, 20.0))
+        t_total += dt0
+        if r0 == "sat":
+            SOLVER_STATS["sat"] += 1
+            vals, bv, m = _model_values(s0, atoms, bvars)
+            return Result("sat", vals, bv, t_total, "query satisfiable at a pinned point (canary)", m)
     r, s, dt = _z3_check(script, timeout_s)
     t_total += dt
     if r == "unsat":
@@ -367,7 +378,7 @@ def solve(ob: Obligation, timeout_s=60.0, conditioned=True, confirm=None, canary
     SOLVER_STATS["sat"] += 1
     vals, bv, m = _model_values(s, atoms, bvars)
     res = Result("sat", vals, bv, t_total, "raw model", m, refined=has_defined)
-    if conditioned and ob.pairs:
+    if conditioned and ob.pairs and not canary:
         # well-conditioned witness: bounded inputs, gap >= 1/8, so that it survives float32
         script2, atoms2, bvars2 = ob.script(with_axioms=True, bound=4, gap=Fraction(1, 8))
         r2, s2, dt2 = _z3_check(script2, min(timeout_s, 20.0))
